@@ -155,6 +155,37 @@ def decodeKey (k : Bytes) : Option Bytes :=
   | p :: _ => if k.length == 33 && (p == 2 || p == 3) then some k else none
   | [] => none
 
+mutual
+/-- replace the k-th leaf (preorder; a leaf is any item that is not an Array / Struct) of an item. -/
+def replLeaf (r : Item) (k : Option Nat) : Item → Item × Option Nat
+  | .array xs => let (ys, k') := replLeafs r k xs; (.array ys, k')
+  | .struct xs => let (ys, k') := replLeafs r k xs; (.struct ys, k')
+  | leaf => match k with
+    | none => (leaf, none)
+    | some 0 => (r, none)
+    | some (n + 1) => (leaf, some n)
+def replLeafs (r : Item) (k : Option Nat) : List Item → List Item × Option Nat
+  | [] => ([], k)
+  | x :: xs =>
+    let (y, k1) := replLeaf r k x
+    let (ys, k2) := replLeafs r k1 xs
+    (y :: ys, k2)
+end
+
+/-- a replacement item of an `mitemx` line. -/
+def pRepl (s : String) : Option Item :=
+  match s.toList with
+  | ['n'] => some .null
+  | ['t'] => some (.bool true)
+  | ['f'] => some (.bool false)
+  | ['a'] => some (.array [])
+  | ['s'] => some (.struct [])
+  | ['m'] => some (.map 0)
+  | 'i' :: r => (pInt (String.ofList r)).map .int
+  | 'x' :: r => (Hex.decode (String.ofList r)).map .bytes
+  | 'u' :: r => (Hex.decode (String.ofList r)).map .buffer
+  | _ => none
+
 /-- the decoding parameters of the driver. -/
 def dec : Dec := ⟨utf8Valid, decodeKey, Generated.ManifestConsts.validParamTypes⟩
 
@@ -178,6 +209,14 @@ def step (ws : List String) : Option String :=
       match dec.man (m.toItem compactJSON) with
       | some m' => sMan m'
       | none => "err"
+  | "mitemx" :: k :: r :: rest => do
+    let (m, _) ← pMan rest
+    let k ← k.toNat?
+    let r ← pRepl r
+    let it := (replLeaf r (some k) (m.toItem compactJSON)).1
+    pure (match dec.man it with
+      | some m' => sMan m'
+      | none => "err")
   | ["mcancall", perms, hash, groups, method] => do
     let ps ← pList pPerm "," perms
     let h ← Hex.decode hash
